@@ -168,8 +168,10 @@ func GetURLDeadline(ctx context.Context, dst []byte, url string, deadline time.T
 	// Without this 'hack' the load on slow host could exceed MaxConns*
 	// concurrent requests, since timed out requests on client side
 	// usually continue execution on the host.
+	// The exchange may outlive this call (see above): it must not work on the
+	// caller's dst, which is the caller's again once errTimeout has been returned.
 	go func() {
-		statusCodeCopy, bodyCopy, errCopy := doRequestFollowRedirectsBuffer(ctx, req, dst, url, c)
+		statusCodeCopy, bodyCopy, errCopy := doRequestFollowRedirectsBuffer(ctx, req, nil, url, c)
 		ch <- clientURLResponse{
 			statusCode: statusCodeCopy,
 			body:       bodyCopy,
@@ -183,7 +185,7 @@ func GetURLDeadline(ctx context.Context, dst []byte, url string, deadline time.T
 		protocol.ReleaseRequest(req)
 		clientURLResponseChPool.Put(chv)
 		statusCode = resp.statusCode
-		body = resp.body
+		body = append(dst[:0], resp.body...)
 		err = resp.err
 	case <-tc.C:
 		body = dst
